@@ -37,12 +37,60 @@ def test_facts(test, truth, base=frozenset()):
         out |= test_facts(test.value, truth)
         out.add(("T" if truth else "F", test.target.id))
         return out
-    if isinstance(test, ast.Compare) and len(test.ops) == 1:
-        # record both the comparison and its mirror image for interpretation
-        out.add(("T" if truth else "F", norm(test)))
+    if isinstance(test, ast.Compare):
+        # chained comparison a < b < c: pairwise facts when true; walrus operands
+        # are also recorded under the bound name
+        operands = [test.left] + list(test.comparators)
+        for o in operands:
+            if isinstance(o, ast.NamedExpr):
+                pass
+        if len(test.ops) == 1 or truth:
+            for i, op in enumerate(test.ops):
+                l, r = operands[i], operands[i + 1]
+                for lv in _variants(l):
+                    for rv in _variants(r):
+                        c = ast.Compare(left=lv, ops=[op], comparators=[rv])
+                        out.add(("T" if truth else "F", norm(c)))
+            return out
+        out.add(("F", norm(test)))
         return out
     out.add(("T" if truth else "F", norm(test)))
     return out
+
+
+def _variants(e):
+    if isinstance(e, ast.NamedExpr):
+        return [ast.Name(id=e.target.id, ctx=ast.Load()), e.value]
+    return [e]
+
+
+LENGTH_PRESERVING_METHODS = {"copy", "astype", "view", "_optimize_for_argsort", "as_boolean", "as_bytes", "as_date",
+                             "as_datetime", "as_float", "as_integer", "as_object", "as_string", "replace_na",
+                             "rank", "is_na", "tolist"}
+
+
+def length_preserving(value, name):
+    """Is ``value`` an expression whose length equals the length of the
+    current binding of ``name``?"""
+    if isinstance(value, ast.Name):
+        return value.id == name
+    if isinstance(value, ast.Call):
+        f = value.func
+        if isinstance(f, ast.Attribute):
+            if f.attr in LENGTH_PRESERVING_METHODS and length_preserving(f.value, name):
+                return True
+            if f.attr in ("fast",) or (isinstance(f.value, ast.Name) and f.value.id in ("Vector", "DataFrameColumn")):
+                return bool(value.args) and length_preserving(value.args[0], name)
+            if f.attr in ("repeat", "full") and isinstance(f.value, ast.Name) and f.value.id == "np" and len(value.args) >= 2:
+                a = value.args[1]
+                t = norm(a)
+                return t in (f"{name}.length", f"len({name})", f"{name}.nrow", f"{name}.size")
+            if f.attr in ("zeros_like", "full_like", "ones_like", "empty_like", "asarray", "array") \
+                    and isinstance(f.value, ast.Name) and f.value.id == "np":
+                return bool(value.args) and length_preserving(value.args[0], name)
+        if isinstance(f, ast.Name) and f.id in ("Vector", "DataFrameColumn", "list", "tuple", "sorted", "reversed"):
+            return bool(value.args) and length_preserving(value.args[0], name)
+    return False
 
 
 def _killed_texts(n):
@@ -67,6 +115,12 @@ def _killed_texts(n):
                                       "update", "setdefault", "popitem", "add", "discard"):
         out.append(norm(a.value.func.value))
     return out
+
+
+def _is_length_fact(fact, name):
+    t = fact[1]
+    return (f"len({name})" in t or f"{name}.length" in t or f"{name}.nrow" in t or t.strip() in (name, f"not {name}")) \
+        and name not in _names_in_text(t.replace(f"len({name})", "L").replace(f"{name}.length", "L").replace(f"{name}.nrow", "L"))
 
 
 def _fact_killed(fact, killed):
@@ -107,7 +161,13 @@ def _must(cfg):
         if cur is TOP:
             continue
         killed = _killed_texts(n)
-        base = frozenset(f for f in cur if not _fact_killed(f, killed)) if killed else cur
+        keep = None
+        a = n.ast
+        if isinstance(a, ast.Assign) and len(a.targets) == 1 and isinstance(a.targets[0], ast.Name) \
+                and length_preserving(a.value, a.targets[0].id):
+            keep = a.targets[0].id
+        base = frozenset(f for f in cur if not _fact_killed(f, killed)
+                         or (keep is not None and _is_length_fact(f, keep))) if killed else cur
         for s, label in n.succ:
             out = base
             if n.kind == "test" and label in ("T", "F"):
